@@ -79,7 +79,7 @@ Print Assumptions C57_refcount_dead_forever.
    and the monitor only, see level_note).  Full statement:
      forall cfg ops, wf cfg ops = true -> exists obs, run cfg ops = Some obs /\ holds_b cfg ops obs = true *)
 Theorem C57_holds_on_every_model_trace_partial : forall cfg ops,
-  wf cfg ops = true -> cfg = [2] \/ cfg = [3] ->
+  wf cfg ops = true -> cfg = [2] \/ cfg = [3] \/ cfg = [4] ->
   exists obs, run cfg ops = Some obs /\ holds_b cfg ops obs = true.
 Proof. exact model_trace_holds_partial. Qed.
 Print Assumptions C57_holds_on_every_model_trace_partial.
